@@ -4,6 +4,7 @@ from jaqalpaq.core.algorithm.visitor import Visitor
 from jaqalpaq.core.circuit import Circuit
 from jaqalpaq.core.block import BlockStatement, LoopStatement
 from jaqalpaq.core.gatedef import GateDefinition
+from jaqalpaq.error import JaqalError
 from jaqalpaq.core.macro import Macro
 
 
@@ -43,6 +44,11 @@ def _choose_bounding_gate(user_def, default_name, circuit):
         name = user_def
     else:
         name = default_name
+
+    if name in circuit.macros:
+        # The inserted statement would later be expanded as that macro, or
+        # not, depending on the order of the passes.
+        raise JaqalError(f"Cannot expand subcircuits: {name} is defined as a macro")
 
     try:
         return circuit.native_gates[name]
